@@ -138,10 +138,12 @@ def run(check):
             check.violation("a file whose annotations are spelled `# [typeshare]` is skipped: its annotated struct is silently omitted",
                             case={"source": "# [typeshare]\npub struct S { pub a: u8 }\n"}, impl=w, failing_input=True)
     cli_part(check, cases)
-    if not check.violations:
+    if not check.has_failing():
         merged_part(check, cases)
-    if not check.violations:
+    if not check.has_failing():
         same_ident_part(check)
+    if not check.has_failing():
+        emptied_variants_part(check)
     # the human-written corpus (core/data/tests/*/input.rs, corpus/handwritten/*.rs) and token-level mutants of it: the
     # whole pipeline of the real code against the model fed by the translator, all six languages
     check.rule += ("; corpus part: every snapshot-test input of the repository and every hand-written input (whole and item by "
@@ -303,6 +305,64 @@ def same_ident_part(check):
             d = l2.text_diff(ma["ok"].get("", ""), ra["ok"].get("", "")) if "ok" in ma and "ok" in ra else "%s vs %s" % (str(ma)[:200], str(ra)[:200])
             check.violation("%s: items sharing a Rust identifier: generate_types differs from the model: %s" % (lang, d),
                             case={"lang": lang, "files": texts}, impl=ra, model=ma, failing_input=False,
+                            broken="correspondence L2 generate (theorems TsV.C03.Capstone run_guarantees_*)")
+            return
+
+
+def emptied_variants_part(check):
+    """struct variants that keep no field (written `V {}`, or every field skipped in either spelling) next to ordinary ones: the variant
+    itself is still an annotated, non-skipped variant - it must be generated, and so must whatever its generated form refers to
+    (the helper struct `<Enum><Variant>Inner` of five back ends)"""
+    import l2
+    rng = check.rng
+    ts = [m_path("typeshare")]
+    skip = lambda: [rng.choice([m_list("serde", [m_path("skip")]), m_list("typeshare", [m_path("skip")])])]
+    for idx in range(18 if check.thorough else 6):
+        lang = LANGS[idx % len(LANGS)]
+        variants, emptied = [], []
+        for k in range(rng.randint(2, 4)):
+            how = rng.choice(["braces", "all-skipped", "ordinary", "unit", "one-skipped"])
+            vn = "V%d%s" % (k, how.title().replace("-", ""))
+            if how == "braces":
+                fs = ("named", []); emptied.append(vn)
+            elif how == "all-skipped":
+                fs = ("named", [field(skip(), "a%d" % j, t_path(rng.choice(["u8", "String"]))) for j in range(rng.randint(1, 3))]); emptied.append(vn)
+            elif how == "one-skipped":
+                fs = ("named", [field(skip(), "gone", t_path("u8")), field([], "kept", t_path("String"))])
+            elif how == "ordinary":
+                fs = ("named", [field([], "x", t_path("u8"))])
+            else:
+                fs = ("unit",)
+            variants.append({"attrs": [], "ident": vn, "fields": fs})
+        if not emptied:
+            variants.append({"attrs": [], "ident": "VEmpty", "fields": ("named", [])}); emptied.append("VEmpty")
+        f = {"attrs": [], "items": [{"kind": "enum", "attrs": list(ts) + [m_list("serde", [m_nv("tag", lit_s("t")), m_nv("content", lit_s("c"))])],
+                                     "ident": "Event%d" % idx, "generics": [], "variants": variants}]}
+        g = Gen(rng)
+        cfg = {"package": "proto" if lang == "go" else "com.example", "type_mappings": {}, "version_header": False}
+        mreq, rreq, texts = l2.requests(lang, cfg, [{"crate": "", "file_name": "out", "path": "src/lib.rs", "file": f}], g)
+        ma = l2.norm(model([mreq], names=l2.names_of(f))[0])
+        ra = l2.norm(runner([rreq])[0])
+        check.saw(("emptied-variants", lang, texts[0]), nontrivial=True)
+        check.count("emptied-variants")
+        if "ok" in ra:
+            out = ra["ok"].get("", "")
+            for vn in [v["ident"] for v in variants]:
+                # the wire name of the variant occurs in every back end's output
+                if not re.search(r"\b%s\b" % vn, out, re.I):
+                    check.violation("%s: the variant %s of an annotated enum is not generated" % (lang, vn), case={"lang": lang, "source": texts[0]},
+                                    impl={"output": out}, model=ma, failing_input=True)
+                    return
+            for name in sorted(set(re.findall(r"\bEvent%d\w+Inner\b" % idx, out))):
+                if not re.search(r"(?m)^\s*(?:public struct|struct|class|data class|object|type|case class) %s\b" % name, out) and \
+                        not re.search(r"(?m)^class %s\(" % name, out):
+                    check.violation("%s: the generated enum refers to `%s`, the helper struct of a struct variant without fields, which is not "
+                                    "generated" % (lang, name), case={"lang": lang, "source": texts[0]}, impl={"output": out}, model=ma, failing_input=True)
+                    return
+        if ma != ra:
+            d = l2.text_diff(ma["ok"].get("", ""), ra["ok"].get("", "")) if "ok" in ma and "ok" in ra else "%s vs %s" % (str(ma)[:200], str(ra)[:200])
+            check.violation("%s: struct variants without fields: generate_types differs from the model: %s" % (lang, d),
+                            case={"lang": lang, "source": texts[0]}, impl=ra, model=ma, failing_input=False,
                             broken="correspondence L2 generate (theorems TsV.C03.Capstone run_guarantees_*)")
             return
 
